@@ -50,6 +50,10 @@ impl<'a> WireFormat<'a> for IPSECKEY<'a> {
     where
         Self: Sized,
     {
+        if data.len() < *position + 3 {
+            return Err(crate::SimpleDnsError::InsufficientData);
+        }
+
         let precedence = data[*position];
         *position += 1;
         let gateway_type = data[*position];
